@@ -143,6 +143,10 @@ class FrameItem(EFLRItem):
             If direction cannot be determined, it is assigned to None.
         """
 
+        if np.issubdtype(index_data.dtype, np.integer):
+            # differences of unsigned or narrow integers must not wrap around (e.g. 4 - 5 = 255 for uint8)
+            index_data = index_data.astype(np.int64)
+
         diff = np.diff(index_data)
         diff_unique = np.unique(diff)
 
@@ -157,7 +161,8 @@ class FrameItem(EFLRItem):
 
         if len(diff_unique) == 1:
             # if spacing between each sample is the same, this is it
-            return diff_unique[0], direction
+            spacing = diff_unique[0]
+            return (spacing.item() if isinstance(spacing, np.int64) else spacing), direction
 
         # if not, check if these are minor deviations (can be attributed to numerical accuracy) or not
         median_diff = np.median(diff).item()  # mypy complains that median_diff is a numpy array...
